@@ -164,6 +164,7 @@ def sliceLen (first last step : Int) : Int :=
 inductive Item
   | int (k : Int)
   | slice (start stop step : Option Int)
+  | foreign   -- anything that is neither `int` (bool included) nor `slice`: None, Ellipsis, numpy integers, floats, lists …
 deriving DecidableEq, Repr, Inhabited
 
 abbrev PySlice := Option Int × Option Int × Option Int
@@ -178,6 +179,7 @@ def itemSlice (it : Item) (n : Int) : Except ErrKind PySlice :=
   | .slice a b c => do
     let _ ← checkSlice a b n
     pure (a, b, c)
+  | .foreign => .error .type     -- `Items within "index" must be ints, or slices` / `Argument "index" must be an int, slice or tuple`
 
 def optItemSlice (it : Option Item) (n : Int) : Except ErrKind (Option PySlice) :=
   match it with
